@@ -7,6 +7,7 @@ import (
 	"fmt"
 	"os"
 	"path/filepath"
+	"strings"
 	"sync"
 	"sync/atomic"
 	"testing"
@@ -499,6 +500,9 @@ func TestC11(t *testing.T) {
 			"Get / GetProof per absent commitment kind and absent namespace); distinct = distinct (block, service, call, namespace, commitment) tuples issued to the real blob.Service; "+
 			"non-trivial = every block comes out of square.Builder/da.ConstructEDS (real padding, alignment, row spans), answers compared field by field with the construction record")
 	defer run.Finish()
+	defer run.WatchDeadlock("C11 a blob service call never returns (stable state: blocked on a lock): ", func(f string) bool {
+		return strings.Contains(f, "celestia-node/blob.") || strings.Contains(f, "share/eds.") || strings.Contains(f, "celestia-node/store")
+	})()
 	c11Quiet()
 	c := &c11{run: run}
 	rng := vkit.NewRNG(vkit.Seed(), "C11")
